@@ -33,6 +33,7 @@ func TestCheck(t *testing.T) {
 		sequentialHistories(r)
 		nearCollisionIsolation(r)
 		defaultNameIsolation(r)
+		partialSyncResize(r)
 
 		vkit.Sched.Enable(seed, 0.04, 0.02, 0.002)
 		concurrentRuns(r)
@@ -51,6 +52,9 @@ func TestCheck(t *testing.T) {
 		r.Require(r.Counter("conc_attempts_at_limit_after_resize_down_returned") >= 50, "too few attempts at the limit after a resize-down had returned")
 		r.Require(r.Counter("conc_epoch_begins_by_toggle_or_readd") >= 50, "too few epochs begun by a type change / re-add")
 		r.Require(r.Counter("isolation_probe_rounds_while_hot_exhausted") >= 100, "too few isolation probes while the other schema was exhausted")
+		r.Require(r.Counter("partial_sync_cases") >= 24 && r.Counter("partial_sync_cases_cluster-delete-recreate") >= 3 && r.Counter("partial_sync_cases_endpoint-unusable") >= 3, "too few partial-sync / re-create resize cases")
+		r.Require(r.Counter("seq_limiter_mode_flips") >= 100 && r.Counter("conc_limiter_mode_flips") >= 50, "too few limiter-mode flips")
+		r.Require(r.Counter("seq_boundary_limits(0_or_maxint32)") >= 50, "too few sequential histories with boundary limits")
 		r.Require(r.Counter("default_name_isolation_cases") >= 6, "too few system-default name isolation cases")
 		r.Require(r.Counter("near_collision_cases") >= 30 && r.Counter("near_collision_exact_probes") >= 250, "too few near-collision isolation probes")
 		r.Require(r.Counter("lin_histories") >= 100 && r.Counter("lin_admissions") >= 500, "too few linearizability histories")
@@ -59,6 +63,9 @@ func TestCheck(t *testing.T) {
 			r.Require(r.Counter("e2e_quiescence_429_observed") >= 20, "too few end-to-end quiescence probes reached the 429")
 			r.Require(r.Counter("e2e_panics_injected_while_writing_503") >= 5 && r.Counter("e2e_panics_injected_in_upgrade_hijack") >= 5, "too few panics were injected in the dispatcher's frame after admission")
 			r.Require(r.Counter("e2e_streams_ended_by_endpoint_removal") >= 3, "too few streams were torn down by an endpoint removal")
+			r.Require(r.Counter("e2e_cluster_recreate_scenarios") >= 2 && r.Counter("e2e_limit_zero_scenarios") >= 2, "too few cluster re-create / limit-zero scenarios")
+			r.Require(r.Counter("e2e_storm_scenarios_reaching_the_limit") >= 2 && r.Counter("e2e_storm_refused") >= 20 && r.Counter("e2e_storm_updates") >= 20, "the end-to-end storm did not load the limiter")
+			r.Require(r.Counter("e2e_end_watch-stream_status_200") >= 3 && r.Counter("e2e_end_http10_status_200") >= 3 && r.Counter("e2e_end_upload-aborted_status_0") >= 3, "too few watch / HTTP/1.0 / aborted-upload endings")
 			r.Require(r.Counter("e2e_default_name_scenarios") >= 2, "too few end-to-end scenarios with a schema named system-default")
 			r.Require(r.Counter("e2e_near_collision_scenarios") >= 3, "too few end-to-end near-collision scenarios completed")
 		}
